@@ -12,6 +12,8 @@ mod json;
 mod refs;
 mod rng;
 mod runner;
+mod gen;
+mod scen_head;
 mod scen_send;
 
 use runner::Prop;
@@ -72,6 +74,34 @@ fn props() -> Vec<Prop> {
             level: "exploration",
             rule: "seeded (input length, output length) pairs with output 6..=11000 and around multiples of 10248, and whole-body loops through one fixed buffer; non-trivial = every pair, every loop with >=2 calls; distinct = (size buckets, full-consumption / call count)",
             assumptions: &[A_COMMON],
+            cells_total: 0,
+            cells_what: "",
+            exhaustive_note: "",
+        },
+        Prop {
+            id: "C05",
+            scenario: "recvhead",
+            run: scen_head::c05,
+            quick: 60_000,
+            thorough: 1_500_000,
+            subs: &["heads"],
+            level: "exploration",
+            rule: "generated well-formed response heads (1.0/1.1, 101..999, empty/long/obs-text reason, 0..128 fields and a 129..140 class, OWS variants, empty values, repeated names, 3xx with Location at drawn positions) followed by arbitrary bytes, offered to Flow<RecvResponse>, Call<RecvResponse> and parser::try_parse_response on a drawn increasing sequence of arrival prefixes (one-shot, trickle, random, structural cuts around line ends and the Location line, every prefix for short heads) with re-polls; non-trivial = >=2 polls; distinct = abstract trace (cut position class relative to line ends, status class, result kind)",
+            assumptions: &[A_COMMON, "status 100 is excluded (owned by C11); heads carry only valid framing fields"],
+            cells_total: 0,
+            cells_what: "",
+            exhaustive_note: "",
+        },
+        Prop {
+            id: "C20",
+            scenario: "taps",
+            run: scen_head::c20,
+            quick: 60_000,
+            thorough: 1_500_000,
+            subs: &["response", "request"],
+            level: "exploration",
+            rule: "generated request and response heads with 0..N+2 fields for limits N in {0,1,4,128}, followed by arbitrary bytes, offered to try_parse_response::<N>, try_parse_partial_response::<N>, try_parse_request::<N> on every prefix (heads <= 300 bytes) or on drawn structural prefixes; non-trivial = >=2 prefixes; distinct = abstract trace (limit, over/within, completeness, result kind)",
+            assumptions: &[A_COMMON, "prefixes of a head that exceeds the limit may answer incomplete or too-many-headers (the statement decides only the complete head)"],
             cells_total: 0,
             cells_what: "",
             exhaustive_note: "",
